@@ -142,6 +142,27 @@ LIFECYCLE = {
 for _k, _v in LIFECYCLE.items():
     CHECKS[_k]['text'] += ' ' + _v
 
+# wave 14
+W14 = {
+ 'C01': 'Signature values and variant signatures of 126..255 characters in both byte orders.',
+ 'C03': 'The serial run builds messages with and without bodies, tries descriptor bodies in returns / errors / signals, and reads the header-field set of the first 3000 messages.',
+ 'C04': 'The connectionAuthenticated hook reads one more message while the last handshake line is being handled (every cut of the handshake, a message joined behind it).',
+ 'C05': 'What the process holds after 20 and after 120 presentations of each hostile input may differ by at most 4 KiB.',
+ 'C06': 'A dictionary of words derived from the attribute names of the authentication classes, bare and with an argument, in each waiting state: an unknown command like any other.',
+ 'C07': 'Keyring directories of mode 0700 / 0711 / 0710 / 0701.',
+ 'C08': 'Answers coalesced in one read alternate in byte order.',
+ 'C09': 'Two connections in one process, each with proxies, callbacks and a call, lost one after the other.',
+ 'C11': 'Scenarios with comings and goings on the bus (a peer that connected first has left, newcomers have arrived) before the calls.',
+ 'C12': 'The match-everything rule is among the history specs; the history search keys its states on the connection\'s own rule tables too.',
+ 'C13': 'A peer without Hello that calls somebody else, asks for a name in the same / the next read and goes away owns nothing afterwards.',
+ 'C16': 'Every subset of eight paths whose child names begin with characters of the parent path.',
+ 'C17': 'After a successful Get, the same text split elsewhere between interface and property name must fail.',
+ 'C18': 'One string as interface and destination of a call / signal for every enumerated string.',
+ 'C20': 'Descriptors inside variants of calls, in return values and in signals: refused, or written with the descriptors attached and declared.',
+}
+for _k, _v in W14.items():
+    CHECKS[_k]['text'] += ' ' + _v
+
 REASON_TODO = 'check not built yet in this snapshot (planned in DESIGN.md section 3); nothing is claimed for it'
 
 def main():
